@@ -87,12 +87,65 @@ var c08Phantoms = []string{"10.0.0.1", "10.0.0.2", "2001:db8::1"}
 var c08Transports = []pb.TransportType{pb.TransportType_Min, pb.TransportType_Prefix, pb.TransportType_DTLS, pb.TransportType_Obfs4}
 
 func c08Secret(i int) []byte {
+	if i >= c08SepSecBase && i < c08SepSecBase+4 {
+		return c08SepSecret(i - c08SepSecBase)
+	}
 	s := make([]byte, 32)
 	for j := range s {
 		s[j] = byte(i*37 + j)
 	}
 	return s
 }
+
+// Secrets 12 … 15 are chosen so that the transports' identifiers (HMACs: arbitrary bytes) contain the byte
+// 0x7c, the separator of the registry's timeout index: in the identifier of every transport (12), as the
+// first byte of the min identifier (13), as its last byte (14), twice in it (15). Found by search, once.
+const c08SepSecBase = 12
+
+var c08SepSecrets struct {
+	once sync.Once
+	s    [4][]byte
+}
+
+func c08SepSecret(j int) []byte {
+	c08SepSecrets.once.Do(func() {
+		ids := func(sec []byte) [3]string {
+			d := &DecoyRegistration{Keys: &core.ConjureSharedKeys{SharedSecret: sec}}
+			return [3]string{min.Transport{}.GetIdentifier(d), prefix.Transport{}.GetIdentifier(d), dtls.Transport{}.GetIdentifier(d)}
+		}
+		want := [4]func(id [3]string) bool{
+			func(id [3]string) bool {
+				return strings.Contains(id[0], "|") && strings.Contains(id[1], "|") && strings.Contains(id[2], "|")
+			},
+			func(id [3]string) bool { return id[0][0] == '|' },
+			func(id [3]string) bool { return id[0][len(id[0])-1] == '|' },
+			func(id [3]string) bool { return strings.Count(id[0], "|") >= 2 },
+		}
+		for n, found := uint32(0), 0; found < 4; n++ {
+			if n > 1<<22 {
+				panic("no secret whose identifiers contain the separator byte was found")
+			}
+			sec := make([]byte, 32)
+			for k := range sec {
+				sec[k] = byte(0x5e ^ k)
+			}
+			sec[0], sec[1], sec[2], sec[3] = byte(n), byte(n>>8), byte(n>>16), 0x7c
+			id := ids(sec)
+			for j := range want {
+				if c08SepSecrets.s[j] == nil && want[j](id) {
+					c08SepSecrets.s[j] = sec
+					found++
+					break
+				}
+			}
+		}
+	})
+	return c08SepSecrets.s[j]
+}
+
+// further generators / replay parsers register themselves here (files that are only in C08's copy list)
+var c08Extra []func(out *vlib.Out, r *vlib.Rand)
+var c08ReplayExtra []func(t *testing.T, out *vlib.Out, line string) bool
 
 // members of bursts have secrets of their own: sec = c08BulkBase + index
 const c08BulkBase = 1 << 20
@@ -241,21 +294,74 @@ func (w *c08World) spell(rawID string) string {
 	return h
 }
 
+// ---- the timeout record, reached without naming its bookkeeping fields.
+// The harness needs three things of a record: which registration it belongs to, how old the code thinks it
+// is, and a way to let virtual time pass. The first comes from the key the registry itself stores the
+// record under (timeoutIndex is the code's own key function: the phantom address is free of its separator,
+// so the first one ends it; the answer is confirmed by calling timeoutIndex again, and found by a scan of
+// the tracked registrations otherwise); the other two go over whatever time.Time fields the record has.
+// A refactor of the record's internal bookkeeping leaves the harness compiling and observing.
+
+func c08RecKey(rd *RegisteredDecoys, ix string) (string, string) {
+	if i := strings.IndexByte(ix, '|'); i >= 0 && timeoutIndex(ix[:i], ix[i+1:]) == ix {
+		return ix[:i], ix[i+1:]
+	}
+	for ph, m := range rd.decoys {
+		for id := range m {
+			if timeoutIndex(ph, id) == ix {
+				return ph, id
+			}
+		}
+	}
+	return "?", ix
+}
+
+var c08TimeT = reflect.TypeOf(time.Time{})
+
+// c08RecClocks: the time.Time fields of a record (the one called registrationTime first, if there is one).
+func c08RecClocks(to *DecoyTimeout) []*time.Time {
+	v := reflect.ValueOf(to).Elem()
+	var l []*time.Time
+	for i := 0; i < v.NumField(); i++ {
+		if f := v.Field(i); f.Type() == c08TimeT {
+			p := (*time.Time)(unsafe.Pointer(f.UnsafeAddr()))
+			if v.Type().Field(i).Name == "registrationTime" {
+				l = append([]*time.Time{p}, l...)
+			} else {
+				l = append(l, p)
+			}
+		}
+	}
+	if len(l) == 0 {
+		panic("the timeout record has no time field: the harness cannot drive the virtual clock")
+	}
+	return l
+}
+
+// c08Shift lets d of virtual time pass for every record (relative shifts only).
+func c08Shift(rd *RegisteredDecoys, d time.Duration) {
+	for _, to := range rd.decoysTimeouts {
+		for _, p := range c08RecClocks(to) {
+			*p = p.Add(-d)
+		}
+	}
+}
+
+func c08RecUsed(to *DecoyTimeout) bool { return to.status == regStatusUsed }
+
 // advance moves the virtual clock to `now`: every timeout record is aged by the elapsed virtual time.
 // Only relative shifts are applied, so whatever the code itself writes into registrationTime
 // (creation, or a change a mutation introduces) is preserved and observed.
 func (w *c08World) advance(now int64) {
 	if d := now - w.lastNow; d > 0 {
-		for _, to := range w.rd.decoysTimeouts {
-			to.registrationTime = to.registrationTime.Add(-time.Duration(d) * time.Second)
-		}
+		c08Shift(w.rd, time.Duration(d)*time.Second)
 		w.lastNow = now
 	}
 }
 
 // vcreated is the virtual time at which the record's clock started, as the code sees it now.
 func (w *c08World) vcreated(to *DecoyTimeout) int64 {
-	age := time.Since(to.registrationTime)
+	age := time.Since(*c08RecClocks(to)[0])
 	q := time.Duration(w.quantum) * time.Second
 	return w.lastNow - int64(age/q)*w.quantum
 }
@@ -267,8 +373,9 @@ func (w *c08World) dump() string {
 			d = append(d, fmt.Sprintf("%s,%s,%d,%s,%d", ph, w.spell(id), int(r.Transport), vlib.B(r.Valid), r.regCount))
 		}
 	}
-	for _, to := range w.rd.decoysTimeouts {
-		t = append(t, fmt.Sprintf("%s,%s,%d,%s", to.decoy, w.spell(to.identifier), w.vcreated(to), vlib.B(to.status == regStatusUsed)))
+	for ix, to := range w.rd.decoysTimeouts {
+		ph, id := c08RecKey(w.rd, ix)
+		t = append(t, fmt.Sprintf("%s,%s,%d,%s", ph, w.spell(id), w.vcreated(to), vlib.B(c08RecUsed(to))))
 	}
 	sort.Strings(d)
 	sort.Strings(t)
@@ -470,7 +577,7 @@ type c08SweepOpts struct {
 	midAt  int    // the interruption by other operations: before the midAt-th removal
 	mid    func() // nil: no interruption; runs on the caller's goroutine while the sweeper is parked
 	// before is called just before mid with the timeout indices the removal loop has handled so far
-	before func(handled []*DecoyTimeout)
+	before func(handled [][2]string) // (phantom, raw identifier) of each
 }
 
 type c08SweepRes struct {
@@ -517,7 +624,11 @@ func c08SweepWith(rd *RegisteredDecoys, logger *log.Logger, o c08SweepOpts) c08S
 		take()
 	}
 	// the indices that are expired when the sweep collects: observed at the first scheduling point
-	var collected []*DecoyTimeout
+	type coll struct {
+		ix string
+		to *DecoyTimeout
+	}
+	var collected []coll
 	go func() {
 		defer close(done)
 		res.n, res.v = rd.removeOldRegistrations(logger)
@@ -560,15 +671,16 @@ func c08SweepWith(rd *RegisteredDecoys, logger *log.Logger, o c08SweepOpts) c08S
 		res.yields++
 		if j == 0 {
 			for _, ix := range rd.getExpiredRegistrations() {
-				collected = append(collected, rd.decoysTimeouts[ix])
+				collected = append(collected, coll{ix, rd.decoysTimeouts[ix]})
 			}
 		}
 		if o.mid != nil && j == o.midAt {
 			if o.before != nil {
-				var handled []*DecoyTimeout
-				for _, to := range collected {
-					if cur, ok := rd.decoysTimeouts[timeoutIndex(to.decoy, to.identifier)]; !ok || cur != to {
-						handled = append(handled, to)
+				var handled [][2]string
+				for _, c := range collected {
+					if cur, ok := rd.decoysTimeouts[c.ix]; !ok || cur != c.to {
+						ph, id := c08RecKey(rd, c.ix)
+						handled = append(handled, [2]string{ph, id})
 					}
 				}
 				o.before(handled)
@@ -888,8 +1000,9 @@ func runC08Q(out *vlib.Out, ops []c08Op, quantum int64) (string, string, bool) {
 			idx := w.rd.getExpiredRegistrations()
 			var keys []string
 			for _, ix := range idx {
-				if to, ok := w.rd.decoysTimeouts[ix]; ok {
-					keys = append(keys, to.decoy+","+w.spell(to.identifier))
+				if _, ok := w.rd.decoysTimeouts[ix]; ok {
+					ph, id := c08RecKey(w.rd, ix)
+					keys = append(keys, ph+","+w.spell(id))
 				} else {
 					keys = append(keys, "?"+ix)
 				}
@@ -899,8 +1012,9 @@ func runC08Q(out *vlib.Out, ops []c08Op, quantum int64) (string, string, bool) {
 			type cand struct{ name, ix, decoy, rawID string }
 			var cands []cand
 			for _, ix := range idx {
-				if to, ok := w.rd.decoysTimeouts[ix]; ok {
-					cands = append(cands, cand{to.decoy + "," + w.spell(to.identifier), ix, to.decoy, to.identifier})
+				if _, ok := w.rd.decoysTimeouts[ix]; ok {
+					ph, id := c08RecKey(w.rd, ix)
+					cands = append(cands, cand{ph + "," + w.spell(id), ix, ph, id})
 				}
 			}
 			sort.Slice(cands, func(i, j int) bool { return cands[i].name < cands[j].name })
@@ -961,18 +1075,18 @@ func runC08Q(out *vlib.Out, ops []c08Op, quantum int64) (string, string, bool) {
 			o := c08SweepOpts{held: op.held, holdAt: op.holdAt, midAt: op.pos}
 			if len(op.mid) > 0 {
 				o.mid = runMid
-				o.before = func(handled []*DecoyTimeout) {
+				o.before = func(handled [][2]string) {
 					if len(handled) == 0 {
 						return
 					}
 					var ks []string
-					for _, to := range handled {
-						ks = append(ks, to.decoy+","+w.spell(to.identifier))
+					for _, k := range handled {
+						ks = append(ks, k[0]+","+w.spell(k[1]))
 					}
 					sort.Strings(ks)
 					emit("xs,"+strings.Join(ks, ","), "ok")
-					for _, to := range handled {
-						settle(to.decoy, to.identifier, op.now)
+					for _, k := range handled {
+						settle(k[0], k[1], op.now)
 					}
 				}
 			}
@@ -1538,6 +1652,9 @@ func TestVerifC08(t *testing.T) {
 	for i := 0; i < n; i++ {
 		c08Case(out, c08RandomHistory(r, r.Range(5, 400), r.Range(1, 3), r.Range(1, 4)))
 	}
+	for _, f := range c08Extra {
+		f(out, r)
+	}
 }
 
 // c08ParseLine turns a model line (`registry|…` or `registryx|…`) back into a history.
@@ -1722,6 +1839,11 @@ func c08Replay(t *testing.T, out *vlib.Out, path string) {
 	}
 	for _, line := range strings.Split(string(b), "\n") {
 		if !strings.HasPrefix(line, "registry|") && !strings.HasPrefix(line, "registryx|") {
+			for _, f := range c08ReplayExtra {
+				if f(t, out, line) {
+					break
+				}
+			}
 			continue
 		}
 		ops, quantum := c08ParseLine(t, line)
